@@ -23,6 +23,59 @@ class Divergence(Exception):
     pass
 
 
+class Deadlock(Exception):
+    pass
+
+
+_CURRENT: "Execution | None" = None
+
+
+class CoopLock:
+    """Stand-in for ``threading.Lock`` objects the library creates while a harness is being built.
+
+    A real lock would hang the cooperative scheduler (the thread holding the baton would block on a lock
+    whose owner is waiting for the baton).  Acquiring a held CoopLock hands the baton to another thread
+    instead (a forced switch, not a preemption); if nobody can run it is a deadlock."""
+
+    def __init__(self):
+        self.owner = None
+
+    def acquire(self, blocking=True, timeout=-1):
+        ex = _CURRENT
+        me = threading.get_ident()
+        while self.owner is not None and self.owner != me:
+            if not blocking:
+                return False
+            if ex is None or not ex.yield_blocked():
+                raise Deadlock("thread blocks on a lock whose owner cannot run")
+        self.owner = me
+        return True
+
+    def release(self):
+        self.owner = None
+
+    def locked(self):
+        return self.owner is not None
+
+    __enter__ = acquire
+
+    def __exit__(self, *a):
+        self.release()
+
+
+class patched_locks:
+    """Context manager: locks created inside (by the library, while engines are constructed) are CoopLocks."""
+
+    def __enter__(self):
+        self._orig = (threading.Lock, threading.RLock)
+        threading.Lock = CoopLock
+        threading.RLock = CoopLock
+        return self
+
+    def __exit__(self, *a):
+        threading.Lock, threading.RLock = self._orig
+
+
 class Execution:
     def __init__(self, bodies, prefix):
         self.bodies = bodies
@@ -73,6 +126,18 @@ class Execution:
             self.sems[nxt].release()
             self.sems[me].acquire()
 
+    def yield_blocked(self):
+        """Called by a thread blocked on a CoopLock: run somebody else (free choice); False if nobody can."""
+        me = self.tl.i
+        others = [i for i in range(len(self.bodies)) if i != me and self.alive[i]]
+        if not others:
+            return False
+        ch = self._choose("free", len(others)) if len(others) > 1 else 0
+        nxt = others[ch]
+        self.sems[nxt].release()
+        self.sems[me].acquire()
+        return True
+
     def _thread(self, i):
         self.tl.i = i
         self.sems[i].acquire()
@@ -92,6 +157,8 @@ class Execution:
                 self.done.set()
 
     def run(self):
+        global _CURRENT
+        _CURRENT = self
         threads = [threading.Thread(target=self._thread, args=(i,), daemon=True) for i in range(len(self.bodies))]
         for t in threads:
             t.start()
